@@ -12,6 +12,7 @@ from __future__ import annotations
 import ast
 import os
 from datetime import date, timedelta
+from datetime import datetime as _datetime
 
 from harness import shim
 
@@ -28,25 +29,64 @@ SIM_START = date(2021, 3, 1)
 
 
 def d2i(d):
-    return None if d is None else (d - SIM_START).days
+    """date -> day index, by Python's own calendar (date subtraction), independent of any index
+    arithmetic of the code under test"""
+    if d is None:
+        return None
+    if isinstance(d, _datetime):  # datetime / pandas Timestamp
+        d = d.date()
+    return (d - SIM_START).days
+
+
+class sim_start:
+    """context manager: run the adapter with another first simulated day (calendar stage: New Year,
+    leap day, day-of-year 366 inside the period).  Day indices in cases and results stay relative."""
+
+    def __init__(self, d):
+        self.d = d
+
+    def __enter__(self):
+        global SIM_START
+        self.old = SIM_START
+        SIM_START = self.d
+        _TC_CACHE.clear()
+
+    def __exit__(self, *a):
+        global SIM_START
+        SIM_START = self.old
+        _TC_CACHE.clear()
 
 
 _END_ARG_EXPR = None
+END_ARG_PROBLEM = []  # filled when the call-site expression cannot be found / evaluated in the stub namespace
 
 
 def summary_end_arg_expr():
     """the second argument of `self._infrastructure.gen_summary_emis_data(...)` in ldar_sim.py"""
     global _END_ARG_EXPR
     if _END_ARG_EXPR is None:
-        src = open(os.path.join(shim.REPO_SRC, "ldar_sim.py")).read()
-        tree = ast.parse(src)
         found = None
-        for node in ast.walk(tree):
-            if isinstance(node, ast.Call) and isinstance(node.func, ast.Attribute) \
-                    and node.func.attr == "gen_summary_emis_data":
-                found = ast.unparse(node.args[1])
+        try:
+            src = open(os.path.join(shim.REPO_SRC, "ldar_sim.py")).read()
+            tree = ast.parse(src)
+            for node in ast.walk(tree):
+                if isinstance(node, ast.Call) and isinstance(node.func, ast.Attribute) \
+                        and node.func.attr == "gen_summary_emis_data":
+                    if len(node.args) > 1:
+                        found = ast.unparse(node.args[1])
+                    else:
+                        kw = [k for k in node.keywords if k.arg in ("end_date", "date")]
+                        found = ast.unparse(kw[0].value) if kw else None
+        except (OSError, SyntaxError):
+            found = None
         if found is None:
-            raise RuntimeError("ldar_sim.py: call of gen_summary_emis_data not found")
+            # unexpected shape of the code: recorded as a broken correspondence (the checks report it and
+            # the whole-run stage keeps looking for a failing input); the adapter falls back to the time
+            # counter after the loop
+            if not END_ARG_PROBLEM:
+                END_ARG_PROBLEM.append("ldar_sim.py: no call `<x>.gen_summary_emis_data(<data>, <end date>)` found; "
+                                       "the adapter hands the time counter's date after the loop to get_summary_dict")
+            found = "self._tc.current_date"
         _END_ARG_EXPR = found
     return _END_ARG_EXPR
 
@@ -77,9 +117,6 @@ def real_time_counter(n):
             k += 1
         _TC_CACHE[n] = (tc, k)
     return _TC_CACHE[n]
-
-
-END_ARG_PROBLEM = []  # filled when the call-site expression cannot be evaluated in the stub namespace
 
 
 def summary_end_date(n):
@@ -136,9 +173,13 @@ def status_of(em):
     return em.get_status()
 
 
-def run_case(case):
+def _cname(c):
+    return f"c{c}"
+
+
+def run_case(case, company=_cname, rate=1.0):
     (start, nrd, delay, repairable, intermittent, adur, idur, n, events) = case
-    em = make_emission(start, nrd, delay, repairable, intermittent, adur, idur)
+    em = make_emission(start, nrd, delay, repairable, intermittent, adur, idur, rate=rate)
     comp = make_component([em])
     per_day = []
     for dn in range(simulated_days(n)):
@@ -150,12 +191,12 @@ def run_case(case):
                 # detection-only event (site-level sensor): update_detection_records on the
                 # detectable (hence active) emissions
                 for e_ in comp._active_emissions:
-                    e_.update_detection_records(company=f"c{c}", detect_date=cur)
+                    e_.update_detection_records(company=company(c), detect_date=cur)
             elif ed == dn:
                 # Component.tag_emissions divides by len(active emissions): the real caller only
                 # tags components with detected (hence active) emissions
                 if comp._active_emissions:
-                    comp.tag_emissions(TaggingInfo(2.0, cur, 5, f"c{c}", "1", trd))
+                    comp.tag_emissions(TaggingInfo(2.0, cur, 5, company(c), "1", trd))
         comp.update_emissions_state(EmisInfo(), TsEmisData())
         per_day.append("%s:%d:%d:%d:%d:%d" % (
             em.get_status(), em._active_days, em.get_days_emitting(),
@@ -173,13 +214,18 @@ def fmt_by(x):
     return str(x)
 
 
-def summary_line(em, sd):
-    rate = em._rate
+class NonIntegerDays(ValueError):
+    """a reported volume is not (an integer number of days) x rate x 86.4"""
+
+
+def summary_line(em, sd, rate=1.0):
+    """`rate` is the rate the harness configured (not read back from the object under test)"""
     vol = sd[eca.T_VOL_EMIT]
     mit = sd[eca.MITIGATED]
     emit_days = vol / (rate * 86.4)
     mit_days = mit / (rate * 86.4)
-    assert abs(emit_days - round(emit_days)) < 1e-6 and abs(mit_days - round(mit_days)) < 1e-6
+    if not (abs(emit_days - round(emit_days)) < 1e-6 and abs(mit_days - round(mit_days)) < 1e-6):
+        raise NonIntegerDays("emitted %r kg, mitigated %r kg at rate %r g/s: %r / %r days" % (vol, mit, rate, emit_days, mit_days))
     tagged = sd[eca.TAGGED] if sd[eca.TAGGED] != "N/A" else sd[eca.RECORDED]
     by = sd[eca.TAGGED_BY] if sd[eca.TAGGED_BY] != "N/A" else sd[eca.RECORDED_BY]
     end = d2i(sd[eca.DATE_REP_EXP])
@@ -197,15 +243,33 @@ def case_line(case):
         start, nrd, delay, int(repairable), int(intermittent), adur, idur, n, evs)
 
 
-def impl_line(case):
-    em, sd, per_day = run_case(case)
-    return summary_line(em, sd) + " | " + ";".join(per_day)
+def impl_line(case, **kw):
+    em, sd, per_day = run_case(case, **kw)
+    return summary_line(em, sd, rate=kw.get("rate", 1.0)) + " | " + ";".join(per_day)
 
 
 def trace_line(case):
     """(summary line, per-day list) of the real classes on a case"""
     em, sd, per_day = run_case(case)
     return summary_line(em, sd), per_day
+
+
+def safe_impl_line(case, **kw):
+    """(line, None) or (None, (kind, message)): an exception of the code under test on a generated case
+    is reported by the checks as a disagreement / violation with this case as input, never as a harness
+    error"""
+    try:
+        return impl_line(case, **kw), None
+    except NonIntegerDays as e:
+        return None, ("non-integer-days", str(e))
+    except Exception as e:  # noqa: BLE001
+        import traceback
+
+        tb = traceback.extract_tb(e.__traceback__)
+        where = "%s:%d" % (os.path.basename(tb[-1].filename), tb[-1].lineno) if tb else "?"
+        return None, ("exception", "%s: %s (%s)" % (type(e).__name__, e, where))
+    except SystemExit as e:
+        return None, ("exception", "SystemExit(%r)" % (e.code,))
 
 
 # ------------------------------------------------------------------------------------------------
@@ -382,7 +446,196 @@ def run_get_rep_delay(kind, values, seed, column="dcol"):
             out["emission_delay"] = int(em._repair_delay)
         except SystemExit:
             out["exited"] = True
+        except ValueError as e:
+            # np.random.choice of an empty collection: the configuration offers no delay at all
+            out["exited"] = True
+            out["error"] = "%s: %s" % (type(e).__name__, e)
     finally:
         np.random.choice = orig_choice
         logging.disable(logging.NOTSET)
     return out
+
+
+# ------------------------------------------------------------------------------------------------
+# hardening stages (audit/LESSONS.md): same-process history, shared inputs, copies / pickles of the
+# real objects, copy-hook table, calendar
+# ------------------------------------------------------------------------------------------------
+def build_components(world):
+    """real Components of a small world (see _emission_common.small_world): [(component, events, specs, objs)]"""
+    n, comps = world
+    real = []
+    for ems, evs in comps:
+        objs = [make_emission(st, nrd, dl, rep, inter, ad, idur, rate=r / 1024.0)
+                for (st, nrd, dl, rep, inter, ad, idur, r) in ems]
+        real.append((make_component(objs), list(evs), ems, objs))
+    return real
+
+
+def component_emissions(comp):
+    """every emission object a Component holds, wherever it currently is (pending / cursor / active / inactive)"""
+    out = []
+    for src in comp._sources:
+        for lst in src._generated_emissions.values():
+            out += list(lst)
+        if src._next_emission is not None:
+            out.append(src._next_emission)
+    out += list(comp._active_emissions) + list(comp._inactive_emissions)
+    seen, uniq = set(), []
+    for e in out:
+        if id(e) not in seen:
+            seen.add(id(e))
+            uniq.append(e)
+    return uniq
+
+
+def drive_components(comps_events, n, with_events=True):
+    """the day loop of LdarSim.run_simulation over real Components: [(component, events)]"""
+    for dn in range(simulated_days(n)):
+        cur = SIM_START + timedelta(days=dn)
+        for comp, evs in comps_events:
+            comp.activate_emissions(cur, 0)
+        for comp, evs in comps_events:
+            for ev in (evs if with_events else []):
+                if ev[0] != dn:
+                    continue
+                if len(ev) > 3 and ev[3] == 1:
+                    for e_ in comp._active_emissions:
+                        e_.update_detection_records(company=f"c{ev[1]}", detect_date=cur)
+                elif comp._active_emissions:
+                    comp.tag_emissions(TaggingInfo(2.0, cur, 5, f"c{ev[1]}", "1", ev[2]))
+        info, data = EmisInfo(), TsEmisData()
+        for comp, _ in comps_events:
+            comp.update_emissions_state(info, data)
+
+
+def component_summaries(comp, n, rates):
+    """summary line of every emission of a driven Component, ordered by (start date, rate) so that copies
+    of one component can be compared position by position"""
+    ems = sorted(component_emissions(comp), key=lambda e: (e._start_date, e._rate, type(e).__name__))
+    out = []
+    for em in ems:
+        sd = em.get_summary_dict(summary_end_date(n))
+        out.append("%s/%s/%d %s" % (type(em).__name__, d2i(em._start_date), round(em._rate * 1024),
+                                    summary_line(em, sd, rate=em._rate)))
+    return out
+
+
+COPY_HOOKS = ("__deepcopy__", "__copy__", "__reduce__", "__reduce_ex__", "__getstate__", "__setstate__",
+              "__getnewargs__", "__getnewargs_ex__", "__new__")
+HOOK_FILES = ["virtual_world/emission_types/emission.py", "virtual_world/emission_types/repairable_emission.py",
+              "virtual_world/emission_types/non_repairable_emissions.py",
+              "virtual_world/emission_types/intermittency_mixin.py",
+              "virtual_world/emission_types/intermittent_repairable_emission.py",
+              "virtual_world/emission_types/intermittent_non_repairable_emission.py",
+              "virtual_world/component.py", "virtual_world/sources.py"]
+
+
+def hook_table():
+    """(problems, table): copy / pickle hooks, class-level and module-level mutable containers and caching
+    decorators of the classes the emission model stands for, read from the source with `ast`.
+    table entries: "file:Class.hook", "file:Class.NAME={}" (class-level container), "file:NAME=[]"
+    (module level), "file:Class.method@decorator"."""
+    table, problems = [], []
+
+    def mutable(v):
+        if isinstance(v, (ast.Dict, ast.List, ast.Set, ast.ListComp, ast.DictComp, ast.SetComp)):
+            return {"Dict": "{}", "List": "[]", "Set": "set", "ListComp": "[]", "DictComp": "{}", "SetComp": "set"}[type(v).__name__]
+        if isinstance(v, ast.Call) and isinstance(v.func, ast.Name) and v.func.id in ("dict", "list", "set", "defaultdict", "OrderedDict", "deque"):
+            return v.func.id + "()"
+        return None
+
+    def targets(node):
+        if isinstance(node, ast.Assign):
+            return [t.id for t in node.targets if isinstance(t, ast.Name)], node.value
+        if isinstance(node, ast.AnnAssign) and isinstance(node.target, ast.Name) and node.value is not None:
+            return [node.target.id], node.value
+        return [], None
+
+    for rel in HOOK_FILES:
+        path = os.path.join(shim.REPO_SRC, rel)
+        try:
+            tree = ast.parse(open(path).read())
+        except (OSError, SyntaxError) as e:
+            problems.append("%s: cannot be read / parsed (%s)" % (rel, e))
+            continue
+        short = rel.split("/")[-1]
+        for node in tree.body:
+            names, val = targets(node)
+            for nm in names:
+                m = mutable(val)
+                if m:
+                    table.append("%s:%s=%s" % (short, nm, m))
+            if isinstance(node, ast.ClassDef):
+                for sub in node.body:
+                    names, val = targets(sub)
+                    for nm in names:
+                        m = mutable(val)
+                        if m:
+                            table.append("%s:%s.%s=%s" % (short, node.name, nm, m))
+                    if isinstance(sub, (ast.FunctionDef, ast.AsyncFunctionDef)):
+                        if sub.name in COPY_HOOKS:
+                            table.append("%s:%s.%s" % (short, node.name, sub.name))
+                        for dec in sub.decorator_list:
+                            d = ast.unparse(dec)
+                            if "cache" in d:
+                                table.append("%s:%s.%s@%s" % (short, node.name, sub.name, d))
+            if isinstance(node, (ast.FunctionDef, ast.AsyncFunctionDef)):
+                for dec in node.decorator_list:
+                    if "cache" in ast.unparse(dec):
+                        table.append("%s:%s@%s" % (short, node.name, ast.unparse(dec)))
+    return problems, sorted(table)
+
+
+def run_shared_source(spec):
+    """several real emissions created by ONE real Source from ONE set of shared inputs.
+
+    spec = {"rep","inter","ad","idur","nrd","delays":[...],"costs":[...],"covs":{name: p},"starts":[...],
+            "events":[...],"n","seed"}
+    The repair-delay list, the repair-cost list and the two coverage dictionaries are handed to the Source
+    once; every emission is created by Source._create_emission (drawing its delay through the recorded
+    np.random.choice) and driven alone through a real Component.  returns dict(results=[(drawn delay,
+    summary line)], inputs_unchanged=bool, inputs_after=...)"""
+    import copy
+    import random as _random
+    import numpy as np
+    import pandas as pd
+
+    delays, costs = list(spec["delays"]), list(spec["costs"])
+    spat, temp = dict(spec["covs"]), dict(spec["covs"])
+    before = copy.deepcopy((delays, costs, spat, temp))
+    src = Source._reconstruct("S", spec["rep"], not spec["inter"], spec["ad"], spec["idur"], True, {}, "r", 0.01,
+                              spec["nrd"], spat, delays if spec["rep"] else None, costs if spec["rep"] else None,
+                              None, "repairable" if spec["rep"] else "non_repairable", temp)
+    rec = []
+    orig_choice = np.random.choice
+
+    def choice(a, *args, **kw):
+        st = np.random.get_state()
+        val = orig_choice(a, *args, **kw)
+        after = np.random.get_state()
+        np.random.set_state(st)
+        idx = int(orig_choice(len(a)))
+        np.random.set_state(after)
+        rec.append(idx)
+        return val
+
+    np.random.seed(spec["seed"])
+    _random.seed(spec["seed"])
+    np.random.choice = choice
+    ems = []
+    try:
+        for i, st in enumerate(spec["starts"]):
+            del rec[:]
+            em = src._create_emission(i, SIM_START + timedelta(days=st), SIM_START, {"r": _StubRates()}, pd.DataFrame())
+            ems.append((em, delays[rec[-1]] if (spec["rep"] and rec) else 0, st))
+    finally:
+        np.random.choice = orig_choice
+    results = []
+    for em, drawn, st in ems:
+        comp = make_component([em])
+        drive_components([(comp, spec["events"])], spec["n"])
+        sd = em.get_summary_dict(summary_end_date(spec["n"]))
+        results.append((drawn, st, summary_line(em, sd, rate=1.0)))
+    after = (delays, costs, spat, temp)
+    return {"results": results, "inputs_unchanged": after == before,
+            "inputs_before": before, "inputs_after": copy.deepcopy(after)}
